@@ -384,18 +384,23 @@ vbi_idl_demux_feed_frame	(vbi_idl_demux *	dx,
 				 unsigned int		n_lines)
 {
 	const vbi_sliced *end;
+	vbi_bool success;
 
 	assert (NULL != dx);
 	assert (NULL != sliced);
 
+	success = TRUE;
+
+	/* An incorrectable line does not stop us from
+	   looking at the remaining lines of the frame. */
 	for (end = sliced + n_lines; sliced < end; ++sliced) {
 		if (sliced->id & VBI_SLICED_TELETEXT_B_625) {
 			if (!vbi_idl_demux_feed (dx, sliced->data))
-				return FALSE;
+				success = FALSE;
 		}
 	}
 
-	return TRUE;
+	return success;
 }
 
 /** @internal */
